@@ -706,13 +706,16 @@ def rtsp_tables(user, pw, hdrs, method=b"DESCRIBE"):
 CREDS = [(b"admin", b"admin123"), (b"u", b"p:w"), (b"", b""), (b"a:b", b"c"), (b"user", b""), (b"admin", b"Admin123")]
 
 
+ANN_OK, ANN_REFUSED = "A", "R"      # ANNOUNCE requests in a request list (the observer accepts / refuses the publisher)
+
+
 def hdr_list_tok(hs):
-    return ",".join("N" if h == b"" else H(h) for h in hs) if hs else "-"
+    return ",".join(h if isinstance(h, str) else ("N" if h == b"" else H(h)) for h in hs) if hs else "-"
 
 
 def describe_line(enable, method, user, pw, hs):
-    hs = [h.strip() for h in hs]      # the RTSP request reader trims header values
-    t1, t2 = rtsp_tables(user, pw, hs)
+    hs = [h if isinstance(h, str) else h.strip() for h in hs]      # the RTSP request reader trims header values
+    t1, t2 = rtsp_tables(user, pw, [h for h in hs if not isinstance(h, str)])
     return "c14.describe %d %d %s %s %s %s %s" % (enable, method, H(user), H(pw), hdr_list_tok(hs), t1, t2)
 
 
@@ -759,22 +762,40 @@ def gen_rtsp(tier, rng):
                     seqs += [[v, v], [b"", v, v, v],                 # replay of the same credentials
                              [v, b"Bearer abcdef"], [v, b"x"], [v, b"Basic !!!"], [v, b"Basic "], [v, b"Digest "],
                              [v, b""], [v, valid[1 - m]], [v, named[1][1]], [v, named[17][1]]]
+                if method in (0, 1):
+                    v = valid[method]
+                    # ANNOUNCE (no RTSP auth) before / after DESCRIBE: whichever is admitted first keeps the connection
+                    seqs += [[ANN_OK], [ANN_OK, ANN_OK], [ANN_OK, v], [ANN_OK, b""], [v, ANN_OK], [b"", ANN_OK], [b"", v, ANN_OK],
+                             [b"", ANN_OK, v], [ANN_REFUSED], [ANN_REFUSED, v], [b"", ANN_REFUSED], [v, ANN_REFUSED], [b"", b"", v, v],
+                             [named[1][1], ANN_OK], [b"", ANN_OK, b""]]
                 for s in seqs:
                     yield Case(describe_line(enable, method, user, pw, s), cls="describe-m%d-e%d" % (method, enable))
     for _ in range(40 if tier == "quick" else 800):
         user, pw = rng.choice(CREDS)
-        hdrs = [h for _, h in rtsp_headers(user, pw)] + [b"", b""]
+        hdrs = [h for _, h in rtsp_headers(user, pw)] + [b"", b"", b"", ANN_OK, ANN_REFUSED]
         s = [rng.choice(hdrs) for _ in range(rng.randrange(1, 5))]
         yield Case(describe_line(1, rng.choice([0, 1, 1, 0, 2]), user, pw, s), cls="describe-random")
 
 
 def describe_expected(enable, method, user, pw, hs):
-    out = []
+    """one RTSP command connection carries at most one play / publish session: a request that arrives while it
+    carries none is judged on its credentials (DESCRIBE) / by the observer (ANNOUNCE); once one was admitted
+    every later DESCRIBE / ANNOUNCE closes the connection.  0 sdp, 1/2 challenge, 3 closed, 4 announce accepted"""
+    out, has = [], False
     for h in hs:
-        if not enable:
+        if has:
+            out.append(3)
+            break
+        if h == ANN_OK:
+            out.append(4)
+            has = True
+        elif h == ANN_REFUSED:
+            out.append(3)
+            break
+        elif not enable:
             out.append(0)
-            continue
-        if h == b"":
+            has = True
+        elif h == b"":
             if method == 0:
                 out.append(1)
             elif method == 1:
@@ -784,6 +805,7 @@ def describe_expected(enable, method, user, pw, hs):
                 break
         elif header_valid(h, method, user, pw):
             out.append(0)
+            has = True
         else:
             out.append(3)
             break
@@ -986,11 +1008,11 @@ def oracle(c, out):
         return (tok_bytes(out) == md5hex(tok_bytes(f[1]) + tok_bytes(f[2])), "SimpleAuthCalcSecret is not md5(key+stream)")
     if op == "c14.describe":
         enable, method, user, pw = int(f[1]), int(f[2]), tok_bytes(f[3]), tok_bytes(f[4])
-        hs = [] if f[5] == "-" else [b"" if h == "N" else tok_bytes(h) for h in f[5].split(",")]
+        hs = [] if f[5] == "-" else [h if h in ("A", "R") else (b"" if h == "N" else tok_bytes(h)) for h in f[5].split(",")]
         if method == 0 and b":" in user:
             return None
         exp = ",".join("0x%x" % x for x in describe_expected(enable, method, user, pw, hs)) or "-"
-        return (out == exp, "DESCRIBE outcomes %s, expected %s (0 sdp, 1/2 challenge, 3 closed) for method %d and headers %r" % (out, exp, method, hs))
+        return (out == exp, "RTSP request outcomes %s, expected %s (0 sdp, 1/2 challenge, 3 closed, 4 announce accepted) for method %d and requests %r (A/R = ANNOUNCE)" % (out, exp, method, hs))
     if op == "c14.parse":
         hs = [b"" if h == "N" else tok_bytes(h) for h in f[4].split(",")]
         user, pw = tok_bytes(f[2]), tok_bytes(f[3])
